@@ -506,11 +506,14 @@ func (group *Group) feedRtpPacket(pkt rtprtcp.RtpPacket) {
 				// subscriber has been given a sdp yet
 				return
 			}
+			// only a video packet can be the start of a GOP: the payload of an audio packet must not be read as a
+			// nal unit header (its bytes would release the waiting subscriber at an arbitrary point of the GOP)
+			isVideo := group.sdpCtx.IsVideoPayloadTypeOrigin(int(pkt.Header.PacketType))
 			switch group.sdpCtx.GetVideoPayloadTypeBase() {
 			case base.AvPacketPtAvc:
-				boundary = rtprtcp.IsAvcBoundary(pkt)
+				boundary = isVideo && rtprtcp.IsAvcBoundary(pkt)
 			case base.AvPacketPtHevc:
-				boundary = rtprtcp.IsHevcBoundary(pkt)
+				boundary = isVideo && rtprtcp.IsHevcBoundary(pkt)
 			default:
 				// 注意，不是avc和hevc时，直接发送
 				boundary = true
